@@ -370,4 +370,46 @@ class Paths:
         return []
 
 
-PARTS = [Grid, Paths]
+class VissSet:
+    """values written as text over the VISS websocket (set) on actuators of every data type: what gets stored must lie
+    in the declared domain (the narrow integer types travel as text and are parsed by the server); the VISS family
+    judged by the C02 clauses and the text-acceptance clause of C20"""
+    FAM = 20
+    CROSS_MAX = 0
+
+    @staticmethod
+    def generate(rng, tier):
+        from .. import viss as VI
+        n = 150 if tier == "quick" else 2000
+        return [("vs%d" % i, VI.gen_case(rng, open_mode=(i % 6 == 5))) for i in range(n)]
+
+    @staticmethod
+    def compare(lines, m, i):
+        from . import c20
+        return c20.compare(lines, m, i)
+
+    @staticmethod
+    def monitor(lines, out):
+        from .. import viss as VI
+        return [f for f in VI.monitor(lines, out) if f.startswith(("C02-", "C20-set", "C20-shared(C02"))]
+
+    @staticmethod
+    def nontrivial(lines, out):
+        return hash(tuple(map(tuple, lines)))
+
+    @staticmethod
+    def histogram(lines, out):
+        from . import c20
+        return ["viss:" + h for h in c20.histogram(lines, out) if h.startswith("VSET")]
+
+    @staticmethod
+    def pretty(lines):
+        from .. import viss as VI
+        return VI.pretty(lines)
+
+    @staticmethod
+    def neighbours(lines, rng):
+        return []
+
+
+PARTS = [Grid, Paths, VissSet]
